@@ -169,7 +169,7 @@ def builder_keywords(repo, fi, depth=4, _seen=None):
     return out
 
 
-def builder_armed(repo, cname, builder, args):
+def builder_armed(repo, cname, builder, args, _concrete=False):
     """Behavioural probe of a request builder: the request is built by interpretation at model time 1000, then asked
       timeout      the largest t (seconds after construction) at which has_timedout is still False, over a grid
       budget       how many times retry(socket) succeeds before it refuses
@@ -211,6 +211,17 @@ def builder_armed(repo, cname, builder, args):
     except PyRaise as e:
         return {"raises": e.what}
     except Undecided as e:
+        if not _concrete:
+            # the builder needs concrete field values (a library call on the number, a branch on a field): the arming
+            # of the request does not depend on them - probe it with sample values
+            from .rules import c04 as _c04
+            try:
+                fields = _c04._fields_in(args, {})
+            except Undecided:
+                fields = None
+            if fields:
+                base = {n: (0x21 + 13 * i) & ((1 << b) - 1) or 1 for i, (n, b) in enumerate(sorted(fields.items()))}
+                return builder_armed(repo, cname, builder, _c04._subst(args, base), _concrete=True)
         raise AnalysisError(f"{cname}.{builder}: cannot probe the built request: {e}")
     return {"timeout": last_false, "budget": budget, "flags": flags}
 
